@@ -87,7 +87,7 @@ package priority
 //@ event close dsc.inputRmvs
 
 // Stop() and GracefulStop() return when Complete() is called on their breaker.
-//@ event call breaker.(*Breaker).Complete (b)
+//@ event call breaker.(*Breaker).Complete (b) in (*Discipline).main
 //@   requires [C07] graceful-stop-returns-only-when-drained-and-released: gStop || gDivErr || (gInfl == 0 && (forall k :: in(gPset, k) ==> in(gClosedIn, k)))
 //@   requires [C02] everything-received-was-delivered: gStop || gDivErr || (!gPendSet && (forall k :: gOutNP[k] == gInN[k]))
 //@   effect gCompleted := true
@@ -621,3 +621,101 @@ package priority
 //@     invariant [C14] forall j :: $i <= j && j < len(priorities) ==> distribution[priorities[j]] == old(distribution[priorities[j]])
 //@     invariant [* C14] msum(distribution) + remainder == old(msum(distribution)) + dividend && remainder <= dividend
 //@     invariant [* C14] forall k :: (forall j :: 0 <= j && j < $i ==> priorities[j] != k) ==> (distribution[k] == old(distribution[k]) && (dom(distribution, k) <==> old(dom(distribution, k))))
+
+// ---------------------------------------------------------------- C16, rule SB
+//@ stoprule (*Discipline).main
+//@ stop roles dsc.breaker.IsBreaked() dsc.opts.Ctx.Done()
+//@ stop blocking-ok send dsc.err: the channel has capacity 1 and main sends at most one error
+//@ stop blocking-ok call time.Sleep: the idle delay is the constant 1ns
+
+// ---------------------------------------------------------------- the simplified discipline
+//
+// Ghost state of Simple.main: gSSpawned handlers started, gSInnerStop the inner discipline's
+// Stop() was called, gSCancelled the handlers' context was cancelled, gSWaited wg.Wait()
+// returned. Ghost state of one handler goroutine: gSHolding an item was received and its
+// release not yet sent, gSHeldP / gSHeldItem that item, gSCalled Handle was called for it.
+
+//@ ghost var gSSpawned int
+//@ ghost var gSInnerStop bool
+//@ ghost var gSCancelled bool
+//@ ghost var gSWaited bool
+//@ ghost var gSHolding bool
+//@ ghost var gSHeldP int
+//@ ghost var gSHeldItem T
+//@ ghost var gSCalled bool
+
+//@ event recv smpl.breaker.IsBreaked() ()
+//@   effect gStop := true
+//@ event recv smpl.opts.Ctx.Done() ()
+//@   effect gStop := true
+//@ event recv smpl.graceful.IsBreaked() ()
+//@   effect gGraceful := true
+//@ event recv smpl.priority.Err() (e)
+//@ event send smpl.err (e)
+//@ event close smpl.err
+//@ event close smpl.output
+//@ event close smpl.feedback
+//@ event recv ctx.Done() ()
+//@   effect gStop := true
+
+// C01 / C02 for the simplified discipline: a handler holds one item at a time, calls Handle
+// exactly once for it, and releases it under its own priority.
+//@ event recv smpl.output (v)
+//@   requires [C01 C02] one-item-at-a-time: !gSHolding
+//@   effect gSHolding := true
+//@   effect gSHeldP := v.Priority
+//@   effect gSHeldItem := v.Item
+//@   effect gSCalled := false
+//@ event send smpl.feedback (p)
+//@   requires [C02] release-after-exactly-one-handle-call-with-its-priority: gSHolding && gSCalled && p == gSHeldP
+//@   effect gSHolding := false
+//@ functype Handle(ctx, item)
+//@   requires [C02] handle-called-once-with-the-received-item: gSHolding && !gSCalled && item == gSHeldItem
+//@   modifies gSCalled
+//@   ensures [C01 C02 C07] gSCalled
+
+//@ event go priority.(*Simple).handler
+//@   effect gSSpawned := gSSpawned + 1
+//@ event call priority.(*Discipline).Stop (d) in (*Simple).main
+//@   effect gSInnerStop := true
+//@ functype CancelFunc()
+//@   modifies gSCancelled
+//@   ensures [C07 C16] gSCancelled
+//@ event call sync.(*WaitGroup).Wait (wg)
+//@   requires [C16] inner-discipline-is-stopped-first: gSInnerStop
+//@   requires [C16] handlers-are-cancelled-before-waiting: gSCancelled
+//@   effect gSWaited := true
+//@ event call breaker.(*Breaker).Complete (b) in (*Simple).main
+//@   requires [C07 C16] no-handle-call-is-running-when-stop-returns: gSWaited
+
+//@ func (*Discipline).Stop
+//@   blocking
+//@   ensures true
+//@ func (*Discipline).GracefulStop
+//@   blocking
+//@   ensures true
+
+//@ func (*Simple).handler
+//@   requires [*] smpl != nil && smpl.opts.Handle != nil
+//@   requires [C01 C02] ghost-initial-state: !gSHolding
+//@   modifies gStop, gClock, gSHolding, gSHeldP, gSHeldItem, gSCalled
+//@   loop 0
+//@     invariant [C01 C02] !gSHolding
+
+//@ func (*Simple).main
+//@   requires [*] smpl != nil && smpl.opts.Handle != nil && smpl.priority != nil && smpl.wg != nil && smpl.breaker != nil && smpl.graceful != nil
+//@   requires [C01] gSSpawned == 0
+//@   requires [C07 C16] !gSWaited && !gSCancelled && !gSInnerStop
+//@   modifies gStop, gGraceful, gClock, gSSpawned, gSInnerStop, gSCancelled, gSWaited
+//@   ensures [C01] exactly-handlers-quantity-handlers: gSSpawned == smpl.opts.HandlersQuantity
+//@   loop 0
+//@     invariant [C01] gSSpawned == $i
+
+// C16, rule SB for the two kinds of goroutines of the simplified discipline.
+//@ stoprule (*Simple).main
+//@ stop roles smpl.breaker.IsBreaked() smpl.opts.Ctx.Done()
+//@ stop blocking-ok send smpl.err: the channel has capacity 1 and main sends at most one error
+//@ stop blocking-ok call sync.(*WaitGroup).Wait: the handlers' context is cancelled before (obligation handlers-are-cancelled-before-waiting) and every blocking operation of a handler has a ctx.Done() case
+//@ stop blocking-ok call priority.(*Discipline).Stop: the inner discipline satisfies the stop rule itself
+//@ stoprule (*Simple).handler
+//@ stop roles ctx.Done()
